@@ -183,7 +183,8 @@ Inductive udropwhy :=
 | DOversize      (* frame longer than 10240: the peer's ReadMsg fails and kills the connection *)
 | DBadContent    (* GetContent error: continue *)
 | DNoAddr        (* WriteToUDP with a nil address *)
-| DDialErr.      (* net.DialUDP failed *)
+| DDialErr       (* net.DialUDP failed *)
+| DWriteErr.     (* WriteToUDP refused this destination (port 0, EPERM, ENETUNREACH ...): the loop goes on *)
 
 Inductive uev :=
 | EUserSend (a : uaddr) (d : bytes)  (* ForwardUserConn read loop: ReadFromUDP = (d, a); NewUDPPacket; try-send *)
@@ -195,7 +196,8 @@ Inductive uev :=
 | ESockIdle (s : N)                  (* reader goroutine of s: ReadFromUDP error (30 s deadline): delete(map, addr); Close *)
 | ECliSend                           (* client workConnSenderFn: <-sendCh; WriteMsg *)
 | ESrvRecv                           (* server/visitor workConnReaderFn: ReadMsg; readCh <- (blocks when full) *)
-| ESrvDeliver                        (* ForwardUserConn reader goroutine: <-readCh; GetContent; WriteToUDP(buf, RemoteAddr) *)
+| ESrvDeliver (wr_ok : bool)         (* ForwardUserConn reply goroutine: <-readCh; GetContent; WriteToUDP(buf, RemoteAddr) = wr_ok (OS oracle);
+                                       whatever the result the goroutine goes on with the next reply *)
 | EConnBreak                         (* the work connection dies *)
 | EWorkConnReplaced.                 (* new work connection: client InWorkConn closes its channels and starts a new Forwarder *)
 
@@ -432,7 +434,7 @@ Definition ustep (c : ucfg) (st : ust) (e : uev) : ust * list uout :=
                   ODropRev DOversize p :: map (ODropFwd DReplacing) (w_sc st) ++ map (ODropRev DReplacing) w)
         end
       else (st, [])
-  | ESrvDeliver =>
+  | ESrvDeliver wr_ok =>
       match s_readq st with
       | [] => (st, [])
       | p :: q =>
@@ -444,7 +446,7 @@ Definition ustep (c : ucfg) (st : ust) (e : uev) : ust * list uout :=
           | None => (st', [ODropRev DBadContent p])
           | Some buf =>
               match up_raddr p with
-              | Some a => (st', [OUser a buf])
+              | Some a => if wr_ok then (st', [OUser a buf]) else (st', [ODropRev DWriteErr p])
               | None => (st', [ODropRev DNoAddr p])
               end
           end
